@@ -442,14 +442,36 @@ class EvolvableModule(nn.Module, metaclass=ModuleMeta):
                 if old_size == new_size:
                     # If the sizes are the same, just copy the parameter
                     param.data = old_param.data
-                elif "norm" not in key:
+                else:
                     # Create a slicing index to handle tensors with varying sizes
                     slice_index = tuple(
                         slice(0, min(o, n)) for o, n in zip(old_size, new_size)
                     )
                     param.data[slice_index] = old_param.data[slice_index]
 
+        EvolvableModule.preserve_buffers(old_net, new_net)
         return new_net
+
+    @staticmethod
+    def preserve_buffers(old_net: nn.Module, new_net: nn.Module) -> None:
+        """Carries the buffers (e.g. running statistics of batch normalization layers) of the
+        old network over to the new network on the index range they have in common.
+
+        :param old_net: Old neural network
+        :type old_net: nn.Module
+        :param new_net: New neural network
+        :type new_net: nn.Module
+        """
+        old_buffers = dict(old_net.named_buffers())
+        for key, buffer in new_net.named_buffers():
+            old_buffer = old_buffers.get(key)
+            if old_buffer is None or old_buffer.dim() != buffer.dim():
+                continue
+
+            slice_index = tuple(
+                slice(0, min(o, n)) for o, n in zip(old_buffer.shape, buffer.shape)
+            )
+            buffer.data[slice_index] = old_buffer.data[slice_index]
 
     @staticmethod
     def init_weights_gaussian(module: nn.Module, std_coeff: float) -> None:
